@@ -1,0 +1,11 @@
+//go:build verif
+
+// Safety-only contracts (C04) for the govc verifier (see pkg/bpv7/verif_contracts_safety.go). Comment-only.
+
+package discovery
+
+// govc:func UnmarshalAnnouncements property C04
+//@ loop 0 invariant i <= l
+
+// govc:func (*Announcement).UnmarshalCbor property C04
+//@ requires r != nil
